@@ -209,6 +209,20 @@ def trees(ctx):
 _C = r'(?:/\*(?:(?!\*/).)*\*/|--[^\n]*\n)'
 HEAL = re.compile(r'(?is)\b(IS|NOT)\s*' + _C + r'(?:\s|' + _C + r')*(NOT|IN|LIKE)\b')
 BLANKS = [' ', '\n', '\t', '  ', '\r\n', '\n   ', ' /* c */ ', ' -- c\n', '\n\n']
+_SYM = set('+-*/%=<>!|(),')
+
+
+def tight(text):
+    """The same token sequence with every blank removed that is not needed to keep two tokens apart (a word next to a symbol:
+    `a-b*c`, `x=1`, `NOT(a)`); between two words and between two symbols the blank stays."""
+    parts = text.split(' ')
+    out = parts[0]
+    for b in parts[1:]:
+        if out and b and ((out[-1] in _SYM) != (b[0] in _SYM)) and out[-1] not in '\'"' and b[0] not in '\'"':
+            out += b
+        else:
+            out += ' ' + b
+    return out
 
 
 def run_shard(ctx):
@@ -290,6 +304,9 @@ def run_shard(ctx):
                         # the same token sequence laid out over several lines / with tabs and comments between the tokens
                         etext = ''.join(r.choice(BLANKS) if ch == ' ' else ch for ch in etext)
                         acc.count('relayouted')
+                    elif (idx + len(c)) % 4 == 3:
+                        etext = tight(etext)
+                        acc.count('tight_layouts')
                     sql = CONTEXTS[c].format(e=etext)
                     acc.ev()
                     try:
